@@ -290,8 +290,6 @@ class Session:
         self.expect = {}         # (db, oid) -> (clsid, tokens with leaves as keys): oracle's graph
         self.stale = set()       # (db, oid) given out during a failed commit and never stored
         self.formats = set()
-        self.indeg = {}
-        self.has_cycle = False
         self.edges = {}
         self.ncommits = 0
         self.failed = False
@@ -1062,31 +1060,28 @@ class Oracle:
             stored = self.closure(snap)
             for h in stored:
                 toks = []
+                me = (snap.db, snap.post_oid[h])
+                s.edges[me] = []              # strong references of the current revision, with repetitions
+
+                def key_of(th):
+                    return (s.connid.get(id(snap.post_jar[th]), (9, 99))[0], snap.post_oid[th])
+                for t in (snap.args[h] or []):
+                    if t[0] == 's':           # a reference inside the constructor arguments
+                        s.edges[me].append(key_of(int(t[1:])))
                 for t in snap.state[h]:
                     if t[0] in 'sw':
                         th = int(t[1:])
-                        jar = snap.post_jar[th]
-                        d = s.connid.get(id(jar), (9, 99))[0]
-                        toks.append('%s%d:%s' % ('o' if t[0] == 's' else 'r', d,
-                                                 snap.post_oid[th].hex() if snap.post_oid[th] else '-'))
+                        d, o = key_of(th)
+                        toks.append('%s%d:%s' % ('o' if t[0] == 's' else 'r', d, o.hex() if o else '-'))
                         if t[0] == 's':
-                            k = (d, snap.post_oid[th])
-                            s.indeg[k] = s.indeg.get(k, 0) + 1
-                            s.edges.setdefault((snap.db, snap.post_oid[h]), set()).add(k)
+                            s.edges[me].append((d, o))
                     else:
                         toks.append(t)
-                for t in (snap.args[h] or []):
-                    if t[0] == 's':           # a reference inside the constructor arguments
-                        th = int(t[1:])
-                        k = (s.connid.get(id(snap.post_jar[th]), (9, 99))[0], snap.post_oid[th])
-                        s.indeg[k] = s.indeg.get(k, 0) + 1
-                        s.edges.setdefault((snap.db, snap.post_oid[h]), set()).add(k)
                 wargs = None
                 if snap.args[h] is not None:
-                    wargs = [('o%d:%s' % (s.connid.get(id(snap.post_jar[int(t[1:])]), (9, 99))[0],
-                                          snap.post_oid[int(t[1:])].hex())
+                    wargs = [('o%d:%s' % (key_of(int(t[1:]))[0], key_of(int(t[1:]))[1].hex())
                               if t[0] == 's' else ('r?' if t[0] == 'w' else t)) for t in snap.args[h]]
-                s.expect[(snap.db, snap.post_oid[h])] = (snap.cls[h], toks, wargs)
+                s.expect[me] = (snap.cls[h], toks, wargs)
 
     def txn_failed(self, events, before):
         s = self.s
@@ -1272,23 +1267,30 @@ def run_case(case):
 
 
 def nontrivial(s):
-    sharing = any(v >= 2 for v in s.indeg.values())
-    # cycle among persistent references
+    indeg = {}
+    for k, targets in s.edges.items():
+        for t in targets:
+            indeg[t] = indeg.get(t, 0) + 1
+    sharing = any(v >= 2 for v in indeg.values())
     cyc = False
     color = {}
-
-    def dfs(k):
-        nonlocal cyc
-        color[k] = 1
-        for n in s.edges.get(k, ()):
-            if color.get(n) == 1:
-                cyc = True
-            elif n not in color:
-                dfs(n)
-        color[k] = 2
-    for k in list(s.edges):
-        if k not in color:
-            dfs(k)
+    for start in list(s.edges):          # iterative DFS: is there a cycle of strong references
+        if start in color:
+            continue
+        stack = [(start, iter(s.edges.get(start, ())))]
+        color[start] = 1
+        while stack:
+            k, it = stack[-1]
+            for n in it:
+                if color.get(n) == 1:
+                    cyc = True
+                elif n not in color:
+                    color[n] = 1
+                    stack.append((n, iter(s.edges.get(n, ()))))
+                    break
+            else:
+                color[k] = 2
+                stack.pop()
     return (sharing or cyc) and len(s.formats & set('TOWMNL')) >= 2
 
 
